@@ -321,7 +321,8 @@ def shape_tag(s):
         s['topo'], s.get('nlayers', 2), s.get('layers', 'high'), s['convention'], s['atmos'], 'ft' if s.get('unit') else 'm',
         {None: 'o-', 'layer_column': 'olc', 'dmplex': 'odm'}[s.get('block_order')], s.get('surfaces', 'none'),
         ''.join(str(n) for n in s.get('wells', [])) or '0', s.get('ncentres', 0), s.get('centres', 'mid'),
-        '.names' if s.get('symnames') else '', '.gdc' if s.get('gdc') else '')
+        '.names' if s.get('symnames') else '', '.gdc' if s.get('gdc') else '') + ('.attop' if s.get('attop') else '') + (
+            '.hist-' + '>'.join({None: 'none', 'layer_column': 'lc', 'dmplex': 'dm'}[o] for o in s['order_history']) if s.get('order_history') else '')
 
 
 def norm_label(label):
@@ -487,6 +488,11 @@ def shapes(tier):
         add(topo='r2x1', nlayers=2, layers='zerotop', convention=0, atmos=2, surfaces='one', surface_above=True, wells=[2])
         add(topo='r3x2', nlayers=2, convention=0, atmos=0, centres='free', surfaces='all', wells=[3, 3], gdc=True)
         add(topo='mix', nlayers=1, convention=1, atmos=2, block_order='layer_column', wells=[2, 3], symnames=True)
+        # explicit surfaces exactly at / around ground level; block order changed by assignment before writing
+        add(topo='r2x1', nlayers=2, convention=0, atmos=0, surfaces='all', attop=True)
+        add(topo='r2x2', nlayers=2, layers='low', convention=3, atmos=1, unit='FEET ', surfaces='one', attop=True, block_order=None, order_history=['dmplex', None])
+        add(topo='mixtq', nlayers=1, convention=1, atmos=2, block_order='dmplex', order_history=[None, 'layer_column', 'dmplex'], surfaces='all', attop=True, cycles=2)
+        add(topo='r2x1', nlayers=1, layers='zerotop', convention=2, atmos=0, block_order=None, order_history=['layer_column', None], surfaces='all', attop=True, cycles=2)
         return S
     topos = ['r2x1', 'r2x2', 'r3x2', 'mix', 'mixtq']
     orders = [None, 'layer_column', 'dmplex']
@@ -514,6 +520,19 @@ def shapes(tier):
         for atm in range(3):
             n += 1
             one(['mix', 'r3x2', 'mixtq', 'r2x2'][(conv + atm) % 4], conv, atm, ['', 'FEET '][n % 2], orders[(conv + atm) % 3])
+    # block order created as x, then assigned y (every ordered pair, and two-step histories)
+    k = 0
+    for o1 in orders:
+        for o2 in orders:
+            k += 1
+            add(topo=['r2x1', 'mixtq', 'r2x2'][k % 3], nlayers=1 + k % 2, convention=k % 4, atmos=k % 3, unit=['', 'FEET '][k % 2],
+                block_order=o2, order_history=[o1, o2], surfaces=['one', 'all'][k % 2], attop=True, cycles=2)
+    add(topo='r2x1', nlayers=2, convention=0, atmos=1, block_order=None, order_history=[None, 'dmplex', 'layer_column', None], cycles=2)
+    add(topo='mixtq', nlayers=2, convention=3, atmos=0, block_order='layer_column', order_history=['dmplex', None, 'layer_column'], cycles=2)
+    # explicit surfaces exactly at / around ground level on every topology
+    for ti, topo in enumerate(topos):
+        add(topo=topo, nlayers=1 + ti % 3, layers=['high', 'zerotop', 'low'][ti % 3], convention=ti % 4, atmos=ti % 3, unit=['', 'FEET '][ti % 2],
+            surfaces=['all', 'one'][ti % 2], attop=True, symnames=True)
     # layer centres that print as 0.00 (exact decimal rounding model)
     for conv in (0, 1):
         for nl, lk in ((1, 'zeromid'), (2, 'zeromid'), (2, 'zeromid2'), (3, 'zeromid2')):
@@ -530,7 +549,7 @@ def run(tier, seed, rep):
     rep.bounds += [
         '%d shapes: topologies RECT 2x1, 2x2, 3x2 from the real mulgrid().rectangular() and an irregular mesh (2 quadrilaterals, 1 triangle, 1 pentagon; one column handed over clockwise) from add_node/add_column/add_connection/add_layers; 1..3 layers (+ atmosphere layer); convention 0..3 x atmosphere type 0..2 x units metres/feet x block order None/layer_column/dmplex%s' % (
             len(sh), ' (full product of the four header options with the topology rotating through all five, plus every convention x atmosphere type on a second topology; the dmplex order uses the mesh without the pentagon)' if tier == 'thorough' else ' (each value at least once)'),
-        'symbolic: every node coordinate (base +- %g), specified centre of 0/1 columns (base +- %g), every layer bottom (base +- %g; layer 0 has bottom = centre = top), layer centres (midpoints as add_layers() makes them, or free values strictly inside the layer), surfaces on 0 / 1 / all columns (anywhere inside a chosen layer except within %g of its boundaries, or up to 50 above ground level), 0..2 wells x 2..3 track points (x, y within 100 of the first node, z within 1000 of ground level), atmosphere_volume and atmosphere_connection (any real with 1e-90 <= |v| <= 1e90 or 0), gdcx, gdcy (unset or in [-1, 1]), permeability_angle (in [-360, 360]); one node name and one column name with symbolic characters (3 cells, right-justified, upper or lower case letters; digits under conventions 1 and 2), different from every other name' % (MODEL.DELTA_XY, MODEL.DELTA_XY, MODEL.DELTA_Z, MODEL.MARGIN),
+        'symbolic: every node coordinate (base +- %g), specified centre of 0/1 columns (base +- %g), every layer bottom (base +- %g; layer 0 has bottom = centre = top), layer centres (midpoints as add_layers() makes them, or free values strictly inside the layer), surfaces on 0 / 1 / all columns (anywhere inside a chosen layer except within %g of its boundaries, or up to 50 above ground level; attop shapes: one explicit surface EXACTLY at ground level and one anywhere within 1 of it); block order created as one value and re-assigned before writing (every ordered pair of None/layer_column/dmplex), 0..2 wells x 2..3 track points (x, y within 100 of the first node, z within 1000 of ground level), atmosphere_volume and atmosphere_connection (any real with 1e-90 <= |v| <= 1e90 or 0), gdcx, gdcy (unset or in [-1, 1]), permeability_angle (in [-360, 360]); one node name and one column name with symbolic characters (3 cells, right-justified, upper or lower case letters; digits under conventions 1 and 2), different from every other name' % (MODEL.DELTA_XY, MODEL.DELTA_XY, MODEL.DELTA_Z, MODEL.MARGIN),
         'base coordinates include 7-digit map-grid values (2776000, 6282000) and a row at the negative 10-column limit (-999997 +- 1: values that do not fit 10 columns are excluded by the fit condition)',
         'layer centres that print as 0.00: decided in dedicated shapes (layers zeromid / zeromid2: a layer whose centre lies within %g of elevation 0) with an exact decimal rounding model for the layer elevations (witnesses keep 1/100 of a unit in the last place away from ties); in all other shapes the layer centres are at least 7 away from 0' % MODEL.DELTA_Z]
     rep.outside += [
